@@ -1,5 +1,6 @@
 import SosModel.Drv.Merkle
 import SosModel.Drv.Log
+import SosModel.Drv.Codec
 open Sos
 
 /-- State threaded through a session (stateful domains add fields here). -/
@@ -10,6 +11,7 @@ def stepLine (st : DrvState) (line : String) : DrvState × String :=
   let toks := (line.trimAscii.toString.splitOn " ").filter (· ≠ "")
   match toks with
   | "merkle" :: rest => (st, Sos.Drv.Merkle.step rest)
+  | "codec" :: rest => (st, Sos.Drv.Codec.step rest)
   | "log" :: rest =>
     let (l, o) := Sos.Drv.Log.step st.log rest
     ({ st with log := l }, o)
